@@ -88,7 +88,7 @@ def run_case(case, ctx):
 
 
 def shard_main(ctx):
-    ctx.explore("irregular", cases(), run_case, ctx.n(70, 1500))
+    ctx.explore("irregular", cases(), run_case, ctx.n(150, 2000))
 
 
 def replay(case, ctx):
